@@ -72,22 +72,9 @@ Proof.
 Qed.
 
 (* ---------------------------------------------------------------- multi-register writes *)
-Lemma rf_write_bytes_frame : forall bs r a x, x < a -> rf_write_bytes r a bs x = r x.
-Proof.
-  fix IH 1. intros [|hi [|lo tl]] r a x Hx; cbn [rf_write_bytes]; auto.
-  rewrite IH by lia. replace (x =? a) with false by lia. reflexivity.
-Qed.
 
-Lemma rf_bytes_write_bytes n : forall bs r a, List.length bs = (2 * n)%nat -> Forall (fun b => 0 <= b < 256) bs ->
-  rf_bytes (rf_write_bytes r a bs) a n = bs.
-Proof.
-  induction n as [|n IH]; intros bs r a Hl Hb.
-  - destruct bs; [reflexivity | discriminate].
-  - destruct bs as [|hi [|lo tl]]; try (cbn in Hl; lia). cbn [rf_write_bytes rf_bytes].
-    inversion Hb as [|? ? Hhi Hb']; subst. inversion Hb' as [|? ? Hlo Hb'']; subst.
-    rewrite rf_write_bytes_frame by lia. cbn beta. rewrite Z.eqb_refl. destruct (word_bytes hi lo Hhi Hlo) as [-> ->].
-    f_equal. f_equal. apply IH; auto. cbn in Hl. lia.
-Qed.
+
+
 
 Lemma be2_bytes v : Forall (fun b => 0 <= b < 256) (be2 v).
 Proof. unfold be2. repeat constructor; apply Z.mod_pos_bound; lia. Qed.
